@@ -173,10 +173,17 @@ with rre_else (n : nat) (e : list stmt) : list stmt :=
 Definition remove_redundant_else_model (p : list stmt) : list stmt := rre (fuel_of p) p.
 
 (* ---------------------------------------------------------------------------------------------- *)
-(* fixes.fix_if_return (fixes.py:3891-3917):
+(* fixes.fix_if_return (fixes.py:5339-5377, after repair 4486780):
      if c: return True          if c: return False
      return False        and    return True          anywhere in a block
-   become `return c` and `return not c`.  The constants are matched exactly (True/False only). *)
+   become `return c` when c is a negation (or a comparison: not in MiniPy), else `return bool(c)`, and
+   `return not c`.  The constants are matched exactly (True/False only).
+   MiniPy writes `bool(t)` as `not not t`: one truth test of t whose result is True/False -- the same
+   evaluation (same draws, same events, same value); the reader of the harness maps `bool(<test>)` to it.
+   The rules are parametrised by the value form [vf] chosen for the first shape: [as_value] is the repaired
+   rule, the identity is the rule before the repair (kept for the pinned refutation old_*_refuted). *)
+Definition TBool (t : test) : test := TNot (TNot t).
+Definition as_value (t : test) : test := match t with TNot _ => t | _ => TBool t end.
 Definition ret_const (b : list stmt) : option bool :=
   match b with [SReturn (RVal (VBool v))] => Some v | _ => None end.
 Definition fir_site (p : list stmt) : option (test * bool * list stmt) :=
@@ -188,27 +195,29 @@ Definition fir_site (p : list stmt) : option (test * bool * list stmt) :=
       end
   | _ => None
   end.
-Fixpoint fir (n : nat) (p : list stmt) : list stmt :=
+Fixpoint fir_with (vf : test -> test) (n : nat) (p : list stmt) : list stmt :=
   match n with
   | O => p
   | S n' =>
       match fir_site p with
-      | Some (t, v, rest) => SReturn (RTest (if v then t else TNot t)) :: fir n' rest
+      | Some (t, v, rest) => SReturn (RTest (if v then vf t else TNot t)) :: fir_with vf n' rest
       | None =>
           match p with
           | [] => []
           | s :: rest =>
               match s with
-              | SIf t b e => SIf t (fir n' b) (fir n' e)
-              | SLoop h b e => SLoop h (fir n' b) (fir n' e)
+              | SIf t b e => SIf t (fir_with vf n' b) (fir_with vf n' e)
+              | SLoop h b e => SLoop h (fir_with vf n' b) (fir_with vf n' e)
               | _ => s
-              end :: fir n' rest
+              end :: fir_with vf n' rest
           end
       end
   end.
+Definition fir := fir_with as_value.
 Definition fix_if_return_model (p : list stmt) : list stmt := fir (fuel_of p) p.
+Definition old_fix_if_return_model (p : list stmt) : list stmt := fir_with (fun t => t) (fuel_of p) p.
 
-(* the guard of the partial theorem: every `return c` site has a boolean-valued condition *)
+(* the guard under which the rule BEFORE the repair was right: every `return c` site has a boolean-valued condition *)
 Definition boolish (t : test) : bool := match t with Unknown _ _ => false | _ => true end.
 Fixpoint fir_safe (n : nat) (p : list stmt) : bool :=
   match n with
@@ -230,8 +239,9 @@ Fixpoint fir_safe (n : nat) (p : list stmt) : bool :=
   end.
 
 (* ---------------------------------------------------------------------------------------------- *)
-(* fixes.fix_if_assign (fixes.py:3920-3950, after repair 4e708bf: elif nodes are skipped):
-     if c: v = True else: v = False   ->  v = c        (and the mirrored form -> v = not c) *)
+(* fixes.fix_if_assign (fixes.py:5386-5440, after repairs 4e708bf: elif nodes are skipped, and 4486780):
+     if c: v = True else: v = False   ->  v = c  for a negation, else  v = bool(c)
+     (and the mirrored form -> v = not c) *)
 Definition asg_const (b : list stmt) : option (var * bool) :=
   match b with [SAssign x (RVal (VBool v))] => Some (x, v) | _ => None end.
 Definition fia_site (s : stmt) : option (test * var * bool) :=
@@ -243,31 +253,34 @@ Definition fia_site (s : stmt) : option (test * var * bool) :=
       end
   | _ => None
   end.
-Fixpoint fia (n : nat) (p : list stmt) : list stmt :=
+Fixpoint fia_with (vf : test -> test) (n : nat) (p : list stmt) : list stmt :=
   match n with
   | O => p
   | S n' =>
       map (fun s =>
         match fia_site s with
-        | Some (t, x, v) => SAssign x (RTest (if v then t else TNot t))
+        | Some (t, x, v) => SAssign x (RTest (if v then vf t else TNot t))
         | None =>
             match s with
-            | SIf t b e => SIf t (fia n' b) (fia_else n' e)
-            | SLoop h b e => SLoop h (fia n' b) (fia n' e)
+            | SIf t b e => SIf t (fia_with vf n' b) (fia_else_with vf n' e)
+            | SLoop h b e => SLoop h (fia_with vf n' b) (fia_with vf n' e)
             | _ => s
             end
         end) p
   end
-with fia_else (n : nat) (e : list stmt) : list stmt :=
+with fia_else_with (vf : test -> test) (n : nat) (e : list stmt) : list stmt :=
   match n with
   | O => e
   | S n' =>
       match e with
-      | [SIf t2 b2 e2] => [SIf t2 (fia n' b2) (fia_else n' e2)]     (* elif: not a site *)
-      | _ => fia n' e
+      | [SIf t2 b2 e2] => [SIf t2 (fia_with vf n' b2) (fia_else_with vf n' e2)]     (* elif: not a site *)
+      | _ => fia_with vf n' e
       end
   end.
+Definition fia := fia_with as_value.
+Definition fia_else := fia_else_with as_value.
 Definition fix_if_assign_model (p : list stmt) : list stmt := fia (fuel_of p) p.
+Definition old_fix_if_assign_model (p : list stmt) : list stmt := fia_with (fun t => t) (fuel_of p) p.
 
 Fixpoint fia_safe (n : nat) (p : list stmt) : bool :=
   match n with
@@ -846,13 +859,18 @@ Definition bc_safe (p : list stmt) : bool :=
 
 
 (* ---------------------------------------------------------------------------------------------- *)
-(* fixes.move_before_loop (fixes.py:695-760) on loops whose body consists of simple statements only (the
+(* fixes.move_before_loop (fixes.py:949-1077, after repairs d47dff7, eeaceb7, 6970620) on loops whose body consists of simple statements only (the
    dependency analysis tracing.code_dependencies_outputs is modelled for straight-line code; a loop with a
    compound statement in its body is outside the correspondence domain and left alone).
    A top-level assignment `x = <constant or variable>` of the loop body is moved in front of the loop when
      - no return/raise/break/continue precedes it in the body,
      - x neither occurs in the statements before it nor in the loop header,
-     - a variable on its right-hand side is not assigned elsewhere in the body.
+     - a variable on its right-hand side is not assigned elsewhere in the body,
+     - (d47dff7) the statements behind it do not read x and then assign it again (scanned up to and
+       including the first statement that assigns x; `x = x` both reads and assigns).
+   The other conditions added by the repairs (targets that are not plain names, values computed from objects
+   the loop may change -- the exemption for a bare name on the right-hand side is what MiniPy has --, names
+   declared global/nonlocal) concern constructs MiniPy does not have.
    The rule restarts after every move. *)
 Definition rexpr_reads (e : rexpr) : list var :=
   match e with RVal _ => [] | RVar y => [y] | RTest t => test_reads t end.
@@ -877,6 +895,14 @@ Definition occurs (x : var) (l : list stmt) : bool :=
   existsb (fun s => mem x (stmt_reads s) || mem x (stmt_writes s)) l.
 Definition writes_in (x : var) (l : list stmt) : bool := existsb (fun s => mem x (stmt_writes s)) l.
 
+(* is_read / is_reassigned of d47dff7: [rd] = x was read by an earlier statement of [after] *)
+Fixpoint read_then_reassigned (x : var) (rd : bool) (after : list stmt) : bool :=
+  match after with
+  | [] => false
+  | s :: tl =>
+      let rd' := rd || mem x (stmt_reads s) in
+      if mem x (stmt_writes s) then rd' else read_then_reassigned x rd' tl
+  end.
 Definition hoistable (h : head) (before : list stmt) (s : stmt) (after : list stmt) : bool :=
   match s with
   | SAssign x k =>
@@ -885,6 +911,7 @@ Definition hoistable (h : head) (before : list stmt) (s : stmt) (after : list st
       && negb (occurs x before)
       && negb (mem x (head_reads h))
       && match k with RVar y => negb (writes_in y (before ++ after)) | _ => true end
+      && negb (read_then_reassigned x false after)
   | _ => false
   end.
 (* first hoistable statement: Some (statement, body without it) *)
